@@ -385,15 +385,15 @@ Proof.
   destruct (bsplit3 l 32%N) as [[p st] reason]. destruct Hl as (Hp & Hst & _). cbn [zb3 bind]. unfold byte in *.
   destruct (g2_httpParseVersion_zb p (fits_le l p Hp Hfit)) as ([[ma mi] ok] & Ev & Ep).
   rewrite Ev. cbn [bind]. rewrite <- Ep. cbn [ver_proj].
-  destruct ok; cbn [negb]; [|eexists; (split; [reflexivity|]); unfold resp_proj; cbn; auto].
-  rewrite go_len_zb. unfold len.
-  destruct (Z.of_nat (length st) =? 3) eqn:E3.
-  - replace (N.of_nat (length st) =? 3)%N with true by lia. cbn [negb].
-    rewrite (g2_asciiToInt_zb st (fits_le l st Hst Hfit)). cbn [bind].
-    destruct (ascii_to_int st) as [code|]; cbn [ati_res go_is_err];
-      eexists; (split; [reflexivity|]); unfold resp_proj; cbn; rewrite ?nb_zb; auto.
-  - replace (N.of_nat (length st) =? 3)%N with false by lia. cbn [negb].
-    eexists; (split; [reflexivity|]); unfold resp_proj; cbn; auto.
+  (* every guard is decided first, in whatever order the Go text tests them *)
+  rewrite ?go_len_zb. unfold len.
+  destruct (Z.of_nat (length st) =? 3) eqn:E3;
+    [replace (N.of_nat (length st) =? 3)%N with true by lia
+    |replace (N.of_nat (length st) =? 3)%N with false by lia];
+  destruct ok; cbn [negb];
+  rewrite ?(g2_asciiToInt_zb st (fits_le l st Hst Hfit)); cbn [bind];
+  destruct (ascii_to_int st) as [code|]; cbn [ati_res go_is_err];
+  eexists; (split; [reflexivity|]); unfold resp_proj; cbn; rewrite ?nb_zb; auto.
 Qed.
 
 (* ------------------------------------------------------------------ btrim *)
